@@ -8,6 +8,9 @@ from cell_type_mapper.utils.utils import (
     _clean_up)
 
 
+import cell_type_mapper.utils.verif_hooks as verif_hooks
+
+
 def csc_to_csr_on_disk(
         csc_group,
         csr_path,
@@ -190,6 +193,17 @@ def transpose_sparse_matrix_on_disk(
     load_chunk_size = max(100, load_chunk_size)
     elements_at_a_time = max(100, elements_at_a_time)
 
+    if verif_hooks.on():
+        verif_hooks.emit(
+            'TrStart',
+            n_indices=int(indices_handle.shape[0]),
+            indices_max=int(indices_max),
+            indices_slice=indices_slice,
+            load_chunk_size=int(load_chunk_size),
+            elements_at_a_time=int(elements_at_a_time),
+            n_non_zero=int(n_non_zero),
+            indptr=(csr_indptr if len(csr_indptr) <= 3000 else None))
+
     r0 = 0
     while True:
         r1 = None
@@ -211,6 +225,10 @@ def transpose_sparse_matrix_on_disk(
 
         index_buffer = np.zeros(d1-d0, dtype=int)
 
+        if verif_hooks.on():
+            verif_hooks.emit('TrBlock', r0=int(r0), r1=int(r1),
+                             d0=int(d0), d1=int(d1))
+
         n_indices = indices_handle.shape[0]
         for i0 in range(0, n_indices, load_chunk_size):
             indices_filter = None
@@ -218,6 +236,9 @@ def transpose_sparse_matrix_on_disk(
             i1 = min(n_indices, i0+load_chunk_size)
 
             row_chunk = indices_handle[i0:i1]
+
+            if verif_hooks.on():
+                verif_hooks.emit('TrLoad', i0=int(i0), i1=int(i1))
 
             if indices_slice is not None:
                 indices_filter = np.logical_and(
